@@ -23,7 +23,7 @@ CLAUSES = {
             "PeCharacteristics", "PeAlignment", "PeSectionTable", "PeSizeOfHeaders", "PeSectionRaw",
             "PeSectionVirtual", "PeSizeOfImage", "PeText", "PeData", "PeEntry", "PeSizeOfCode", "PeDirectories",
             "PeImportsOk", "MzReadBack"],
-    "layout": ["LtAccepts", "LtParsed", "LtPrinted", "LtRoundTrip"],
+    "layout": ["LtAccepts", "LtParsed", "LtPrinted", "LtRoundTrip", "LtDistinguishes"],
     "ar": ["ArSaved", "ArDocument", "ArLoaded", "ArCount", "ArMembers", "ArEqual", "ArStable"],
 }
 EVAL_CFG = "INIT Init\nNEXT Next\nCHECK_DEADLOCK FALSE\nINVARIANT Domain\nINVARIANT Written\n" + "".join(
@@ -71,9 +71,10 @@ WHAT = {
     "MzReadBack": "ppci's header classes / read_exe do not read the written headers back ({rb})",
     "LtAccepts": "Layout.load rejected a text of the language ({exc})",
     "LtParsed": "Layout.load returned a different layout than the text denotes",
-    "LtPrinted": "the printed form of the loaded layout is not the documented one",
-    "LtRoundTrip": "the loaded layout is not equal to / does not print like the layout built through the API",
-    "ArSaved": "Archive.save raised {exc}", "ArDocument": "the saved text is not a JSON document {{objects: [n members]}}",
+    "LtPrinted": "the loaded layout does not print like the layout built through the API",
+    "LtRoundTrip": "the loaded layout is not equal (==) to the layout built through the API",
+    "LtDistinguishes": "a layout that differs in one place compares equal to / prints like the loaded one",
+    "ArSaved": "Archive.save raised {exc}", "ArDocument": "the saved text is not a JSON object holding one list of n members",
     "ArLoaded": "get_archive raised {exc}", "ArCount": "member count changed", "ArMembers": "a member object changed in the round trip",
     "ArEqual": "ppci's == says a reloaded member differs", "ArStable": "saving the reloaded archive gives a different text",
 }
@@ -126,7 +127,7 @@ def uboot_inputs(ctx):
         return bytes([fill] * n) if fill is not None else bytes(rng.getrandbits(8) for _ in range(n))
 
     addrs = [0, 0x100, 1, 0x7FFFFFFF, 0x80000000, 0xFFFFFFFF, 0x12345678, 0x00FF00FF]
-    clocks = [0, 1, 1234.9, 0x7FFFFFFF, 0x80000000, 0xFFFFFFFF, 1700000000.5]
+    clocks = [0, 1, 1234, 0x7FFFFFFF, 0x80000000, 0xFFFFFFFF, 1700000000]
     names = ["", "a", "foobar", "x" * 31, "y" * 32, "Linux-6.1 kernel", "~!@ #"]
     k = 0
     # defaults of the signature
@@ -476,22 +477,46 @@ BAD_TEXTS = ["", "MEMORY", "MEMORY flash LOCATION=0x1000 SIZE=0x3000 { }", "MEMO
              "MEMORY f LOCATION=1 SIZE=2 { SECTION(code) } ?"]
 
 
-def layout_record(text, lay, tag):
-    got = {"ok": False, "exc": "", "layout": {}, "repr": [], "eq": False, "built_repr": []}
+def perturb(lay, pick):
+    """the same layout with one place changed (which place: pick, an integer)"""
+    import copy
+    o = copy.deepcopy(lay)
+    m = o["mems"][pick % len(o["mems"])]
+    i = m["inputs"][(pick // 7) % len(m["inputs"])]
+    how = pick % 6
+    if how == 0:
+        m["loc"] = (m["loc"] + 1) % (1 << 64)
+    elif how == 1:
+        m["size"] = (m["size"] + 1) % (1 << 64)
+    elif how == 2:
+        m["name"] += "x"
+    elif how == 3 and len(m["inputs"]) > 1:
+        m["inputs"].pop()
+    elif i["k"] == "align":
+        i["num"] += 1
+    else:
+        i["name"] += "x"
+    return o
+
+
+def layout_record(text, lay, tag, pick=0):
+    got = {"ok": False, "exc": "", "layout": {}, "repr": [], "eq": False, "built_repr": [], "eq_other": False, "other_repr": []}
     try:
         from ppci.binutils.layout import Layout
         L = Layout.load(io.StringIO(text))
         got.update(ok=True, layout=project_layout(L), repr=_codes(repr(L)))
         if lay is not None:
             B = build_layout(lay)
-            got.update(eq=bool(B == L) and bool(L == B), built_repr=_codes(repr(B)))
+            O = build_layout(perturb(lay, pick))
+            got.update(eq=bool(B == L) and bool(L == B), built_repr=_codes(repr(B)),
+                       eq_other=bool(O == L) or bool(L == O), other_repr=_codes(repr(O)))
         else:
-            got.update(eq=True, built_repr=got["repr"])
+            got.update(eq=True, built_repr=got["repr"], eq_other=False, other_repr=[])
     except Exception as e:
         got["exc"] = _exc(e)
-    return {"key": "X06:layout:{clause}:%s:%s#%s" % (tag, " ".join(text.split())[:50], _h(text)), "fmt": "layout",
+    return {"key": "X06:layout:{clause}:%s:%s#%s" % (tag, " ".join(text.split())[:50], _h(text, pick)), "fmt": "layout",
             "text": _codes(text), "dom": lay is not None, "want": abstract_json(lay) if lay is not None else {},
-            "got": got, "input": {"text": text, "lay": lay, "tag": tag}}
+            "got": got, "input": {"text": text, "lay": lay, "tag": tag, "pick": pick}}
 
 
 # ---------------------------------------------------------------------------------------------- archives
@@ -531,8 +556,9 @@ def archive_record(arch, absobjs):
         return r
     try:
         d = json.loads(text)      # only the shape of the document is taken from here
+        lists = [v for v in d.values() if isinstance(v, list)] if isinstance(d, dict) else []
         r["doc"] = {"ok": isinstance(d, dict), "keys": sorted(d) if isinstance(d, dict) else [],
-                    "nobjects": len(d["objects"]) if isinstance(d, dict) and isinstance(d.get("objects"), list) else -1}
+                    "nobjects": len(lists[0]) if len(lists) == 1 else -1}
     except Exception:
         pass
     try:
@@ -562,7 +588,7 @@ def build_records(ctx):
         elif fmt == "exe":
             recs.append(exe_record(dict(inp, codebytes=bytes.fromhex(inp["codebytes"]), databytes=bytes.fromhex(inp["databytes"]))))
         elif fmt == "layout":
-            recs.append(layout_record(inp["text"], inp["lay"], inp["tag"]))
+            recs.append(layout_record(inp["text"], inp["lay"], inp["tag"], inp.get("pick", 0)))
         else:
             recs.append(archive_record(inp["arch"], inp["objs"]))
         return recs
@@ -573,7 +599,7 @@ def build_records(ctx):
     for inp in exe_inputs(ctx):
         recs.append(exe_record(inp))
     for lay, style in layout_inputs(ctx):
-        recs.append(layout_record(render_layout(lay, style, ctx.rng), lay, "style%d" % style))
+        recs.append(layout_record(render_layout(lay, style, ctx.rng), lay, "style%d" % style, ctx.rng.randrange(1 << 16)))
     for t in HAND_TEXTS:
         recs.append(layout_record(t, None, "hand"))
     for t in BAD_TEXTS:
@@ -635,19 +661,27 @@ class Engine:
         os.unlink(path)
         ctx.cov["traces_validated_against_impl"] += len(recs)
         seen = set()
+        inv_of = {(c[:-2] if c.endswith("Ok") else c): c for f in CLAUSES for c in CLAUSES[f]}
+        inv_of.update(Written="Written", Domain="Domain")
         for e in res.errors:
             idx = e.last.get("vIdx")
             if e.kind != "invariant" or not isinstance(idx, int) or not 1 <= idx <= len(recs):
                 raise core.tlcmod.MachineryError("TLC error without record index: %s\n%s" % (e, e.text[:2000]))
             r = recs[idx - 1]
-            if e.name == "Domain":
+            # TLC reports one violated invariant per state: the state's vBad names every failing clause
+            bad = e.last.get("vBad")
+            names = sorted(bad[1]) if isinstance(bad, tuple) and len(bad) == 2 and bad[0] == "set" else []
+            if not names or not all(isinstance(n, str) and n in inv_of for n in names):
+                raise core.tlcmod.MachineryError("TLC error state without the failing clauses: %s\n%s" % (e, e.text[:2000]))
+            if "Domain" in names:
                 raise core.tlcmod.MachineryError("harness produced a case the specification reads differently: %s" % r["key"])
-            key = r["key"].replace("{clause}", e.name[:-2] if e.name.endswith("Ok") else e.name)
-            if key in seen:
-                continue
-            seen.add(key)
-            exc = (r.get("out") or r.get("got") or {}).get("exc", "") or r.get("saved", {}).get("exc", "") or r.get("loaded", {}).get("exc", "")
-            rb = r.get("rb", {})
-            what = WHAT.get(e.name, e.name).format(exc=exc, rb=rb.get("exc") or "ok=%s" % rb.get("ok"))
-            ctx.violation(key, "%s [clause %s]" % (what, e.name), {"fmt": r["fmt"], "clause": e.name, "input": r["input"],
-                                                                 "failing": sorted(e.last.get("vBad", [])) if isinstance(e.last.get("vBad"), (list, set, tuple, frozenset)) else str(e.last.get("vBad"))})
+            for clause in names:
+                key = r["key"].replace("{clause}", clause)
+                if key in seen:
+                    continue
+                seen.add(key)
+                exc = (r.get("out") or r.get("got") or {}).get("exc", "") or r.get("saved", {}).get("exc", "") or r.get("loaded", {}).get("exc", "")
+                rb = r.get("rb", {})
+                what = WHAT.get(inv_of[clause], clause).format(exc=exc, rb=rb.get("exc") or "ok=%s" % rb.get("ok"))
+                ctx.violation(key, "%s [clause %s]" % (what, clause), {"fmt": r["fmt"], "clause": clause, "input": r["input"],
+                                                                     "failing": names})
